@@ -1,5 +1,6 @@
 import gen_codec as G
 from props import codec_common as cc
+import vlib
 from vlib import Script
 
 SPEC = {
@@ -92,11 +93,111 @@ def top_of_range(rng, reps):
     return ops
 
 
+def server_path(ctx, violations, rng, n, given=None):
+    """(v) what the real Server hands to the application for a sequence of datagrams on the loopback interface equals what
+    the decoder returns for exactly the bytes of each datagram (long datagrams followed by shorter truncated or
+    count-inflated ones): ties server.cpp's receive path to fromPacket.  One run at a time per machine (the library
+    hard-wires port 5353); datagrams carry a per-run transaction id so that foreign traffic is ignored."""
+    import fcntl, os, time
+    lockf = open(os.path.join(vlib.BUILD, "server5353.lock"), "w")
+    t0 = time.time()
+    while True:
+        try:
+            fcntl.flock(lockf, fcntl.LOCK_EX | fcntl.LOCK_NB)
+            break
+        except OSError:
+            if time.time() - t0 > 180:
+                return {"server_path": "skipped: port 5353 busy in another check"}
+            time.sleep(0.5)
+    try:
+        nonce = rng.randrange(1, 60000)
+        dgrams = []
+        if given:
+            dgrams = [bytes.fromhex(l.split()[1]) for l in given]
+            nonce = int.from_bytes(dgrams[0][:2], "big") if dgrams and len(dgrams[0]) >= 2 else nonce
+        for i in range(0 if given else n):
+            m, data = G.gen_ref_case(rng)
+            if len(data) < 14 or len(data) > 8000:
+                continue
+            a = bytearray(data)
+            dgrams.append(bytes(a))
+            k = rng.random()
+            b = bytearray(a)
+            if k < 0.5:
+                b = b[:max(12, len(b) - rng.choice([1, 2, 3, len(b) // 3 + 1]))]        # cut inside the tail
+            elif k < 0.75:
+                b[6:8] = ((int.from_bytes(b[6:8], "big") + rng.choice([1, 2, 7])) & 0xffff).to_bytes(2, "big")  # more answers announced
+                b = b[:max(12, len(b) - rng.choice([0, 0, 5]))]
+            else:
+                b = b[:12 + rng.randrange(0, max(1, len(b) - 12))]
+            dgrams.append(bytes(b))
+        for i, d in enumerate(dgrams):
+            dgrams[i] = ((nonce + i) & 0xffff).to_bytes(2, "big") + d[2:]       # (a replayed sequence already carries consecutive ids)
+        lines = ["DGRAM " + d.hex() for d in dgrams]
+        impl, faults = vlib.run_impl(ctx.hx, [Script("srv", "server", lines)])
+        out = impl.get("srv", [])
+        groups, cur = [], []
+        for l in out:
+            if l == ".":
+                groups.append(cur)
+                cur = []
+            else:
+                cur.append(l)
+        fault = next((l for l in out if l.startswith("FAULT") or l.startswith("ERROR")), None)
+        if fault:
+            cc.report(ctx, violations, "fault", "server engine: " + fault, lines[:40], out[-40:], [],
+                      extra="\n--- sanitizer output ---\n" + faults.get("srv", ""), signature="fault")
+            return {"server_path": "fault"}
+        if not groups or not groups[0] or not groups[0][0].startswith("BOUND 1"):
+            return {"server_path": "skipped: the server could not bind 0.0.0.0:5353 on this machine"}
+        port = groups[0][0].split()[2]
+        judged = lost = 0
+        for i, g in enumerate(groups[1:]):
+            want = next((l for l in g if l.startswith("WANT ")), None)
+            reads = next((int(l.split()[1]) for l in g if l.startswith("READS ")), 0)
+            if want is None or reads <= 0:
+                lost += 1
+                continue
+            mine = []
+            for l in g:
+                if l.startswith("RECV "):
+                    f = l.split(" ", 3)
+                    tok = f[3]
+                    if tok.split("|")[2] == str((nonce + i) & 0xffff):
+                        mine.append((f[1], f[2], tok))
+            judged += 1
+            why = None
+            if want == "WANT FAIL":
+                if mine:
+                    why = "the server delivered a message for a datagram the decoder rejects: %s" % mine[0][2][:200]
+            else:
+                wtok = want[8:]
+                if len(mine) > 1 or (mine and (mine[0][2] != wtok or mine[0][0] != "4:2130706433" or mine[0][1] != port)):
+                    why = "the server delivered %r for a datagram that decodes to %r" % (mine[0][2][:200], wtok[:200])
+            if why:
+                prev = lines[max(0, i - 1):i + 1]
+                if len(violations) < 4:
+                    body = ("property %s — monitor\nserver receive path: %s\n\n--- script (feed to the harness) ---\n=== replay server\n%s\n\n"
+                            "--- implementation (last datagram) ---\n%s\n" % (ctx.pid, why, "\n".join(prev), "\n".join(g)))
+                    pth = vlib.write_replay(ctx.pid, "monitor_%d" % len(violations), body)
+                    violations.append({"replay": pth, "what": "monitor: server receive path: " + why, "nofail": False,
+                                       "signature": "monitor", "kind": "monitor"})
+        return {"server_path": {"datagrams": len(dgrams), "judged": judged, "not_received": lost}}
+    finally:
+        fcntl.flock(lockf, fcntl.LOCK_UN)
+        lockf.close()
+
+
 def explore(ctx, replay=None, search_boost=False):
     rng = ctx.rng
     ops = []
     if replay:
         ops = cc.replay_lines(replay)
+        dg = [l for l in ops if l.startswith("DGRAM ")]
+        if dg:
+            violations = []
+            srv = server_path(ctx, violations, rng, 0, given=dg)
+            return {**srv, "evaluations": len(dg), "distinct_nontrivial": len(dg), "traces_validated_against_impl": len(dg), "violations": violations}
     else:
         quick = ctx.tier == "quick"
         # (i) exhaustive short strings over the structural alphabet, every start offset, three entry points
@@ -137,7 +238,8 @@ def explore(ctx, replay=None, search_boost=False):
     model, impl, faults = cc.run_both(ctx, scripts)
     violations = []
     n_ops, n_ok, n_distinct = cc.compare_ops(ctx, scripts, model, impl, faults, violations)
-    return {"evaluations": n_ops, "distinct_nontrivial": n_distinct, "traces_validated_against_impl": n_ops,
+    srv = {} if replay else server_path(ctx, violations, rng, 40 if ctx.tier == "quick" else 600)
+    return {**srv, "evaluations": n_ops, "distinct_nontrivial": n_distinct, "traces_validated_against_impl": n_ops,
             "exhaustive": False, "exhaustive_short_strings_up_to": None if replay else maxlen,
             "rule": "decoder entry points (fromPacket / parseRecord / parseName at every start offset) on: all strings up to the stated "
                     "length over {00,01,02,3f,40,80,bf,c0,c1,ff}; mutants (bit flips, truncation, pointer retargeting, count/length "
